@@ -356,6 +356,8 @@ class Shape:
                     return ("int", v, "G")
                 if unq(cb["body"]).get("k") == "Lit" and "bool" in unq(cb["body"])["v"]:
                     return ("bool", unq(cb["body"])["v"]["bool"])
+                if unq(cb["body"]).get("k") == "Lit" and "str" in unq(cb["body"])["v"]:
+                    return ("str", unq(cb["body"])["v"]["str"])
         return ("path", d)
 
     def ev_Cast(self, n, env, body):
